@@ -158,7 +158,16 @@ def redundant_circuit(rnd, n_in, n_g):
         outs.append(rnd.choice(inputs))
     if rnd.random() < 0.2:
         outs.append(outs[0])
-    return circgen.build(inputs, gates, outs)
+    # dangling gates hanging off the live logic (they belong to cones but feed nothing)
+    for _ in range(rnd.choice([0, 0, 1, 2, 3])):
+        a, b = rnd.choice(nodes), rnd.choice(nodes)
+        add(rnd.choice(BIN), [a, b])
+    order = None
+    if rnd.random() < 0.4:
+        # storage order of the gate map need not be topological (renames, bench files)
+        order = list(nodes)
+        rnd.shuffle(order)
+    return circgen.build(inputs, gates, outs, order)
 
 
 def special_circuits():
@@ -176,6 +185,11 @@ def special_circuits():
     out.append(("mux-redundant", circgen.build(
         ["s", "a", "b"], [("ns", G.NOT, ("s",)), ("t1", G.AND, ("s", "a")), ("t2", G.AND, ("ns", "b")), ("m", G.OR, ("t1", "t2")),
                           ("u", G.AND, ("a", "b")), ("o", G.OR, ("m", "u"))], ["o"])))
+    out.append(("not-or-and-with-dangling", circgen.build(
+        ["a", "b", "c"], [("t", G.AND, ("a", "b")), ("u", G.OR, ("t", "c")), ("o", G.NOT, ("u",)), ("d1", G.XOR, ("a", "c")), ("d2", G.NAND, ("b", "c")),
+                          ("d3", G.OR, ("t", "a"))], ["o"])))
+    out.append(("xor-and-stored-backwards", circgen.build(
+        ["a", "b", "c"], [("g", G.AND, ("a", "b")), ("h", G.XOR, ("g", "c"))], ["h"], ["h", "c", "g", "b", "a"])))
     out.append(("full-adder-aig", circgen.build(
         ["a", "b", "c"],
         [("x1", G.OR, ("a", "b")), ("x2", G.NAND, ("a", "b")), ("x", G.AND, ("x1", "x2")), ("y1", G.OR, ("x", "c")), ("y2", G.NAND, ("x", "c")),
